@@ -83,6 +83,7 @@ impl Report {
         let mut m = self.extra;
         m.insert("evaluations".into(), json!(self.evaluations));
         m.insert("distinct_classes".into(), json!(self.distinct.len()));
+        m.insert("class_names".into(), json!(self.distinct.iter().collect::<Vec<_>>()));
         m.insert("violations".into(), json!(self.violations));
         m.insert("samples".into(), json!(self.samples));
         println!("STAT {}", Value::Object(m));
